@@ -133,5 +133,8 @@ example : demoStar 3 = true := by decide +kernel
 example : eval [] [.int 2] (inSubqueryNode .in (.col 0 "i" .int) [.int 1, .int 2]) = .ok (.bool true) := by rfl
 example : eval [] [.null] (inSubqueryNode .in (.col 0 "i" .int) [.int 1]) = .ok .null := by rfl
 example : eval [] [.int 2] (inSubqueryNode .notin (.col 0 "i" .int) []) = .ok .null := by rfl
+/-- a subquery that returns rows, all of them NULL, is not an empty subquery: membership is decided (FALSE / TRUE) -/
+example : eval [] [.int 2] (inSubqueryNode .in (.col 0 "i" .int) [.null, .null]) = .ok (.bool false) := by rfl
+example : eval [] [.int 2] (inSubqueryNode .notin (.col 0 "i" .int) [.null, .null]) = .ok (.bool true) := by rfl
 
 end Bql.C08
